@@ -15,6 +15,7 @@ import (
 	"github.com/ipld/go-car/v2/internal/carv1/util"
 	internalio "github.com/ipld/go-car/v2/internal/io"
 	"github.com/ipld/go-car/v2/internal/store"
+	"github.com/ipld/go-car/v2/verifhook"
 	ipldstorage "github.com/ipld/go-ipld-prime/storage"
 )
 
@@ -310,8 +311,11 @@ func (sc *StorageCar) Put(ctx context.Context, keyStr string, data []byte) error
 		return fmt.Errorf("bad CID key: %w", err)
 	}
 
+	verifhook.Gate(sc, "Put", "pre")
 	sc.mu.Lock()
 	defer sc.mu.Unlock()
+	verifhook.Gate(sc, "Put", "locked")
+	defer verifhook.Gate(sc, "Put", "unlocking")
 
 	if sc.closed {
 		return ErrClosed
@@ -357,8 +361,11 @@ func (sc *StorageCar) Has(ctx context.Context, keyStr string) (bool, error) {
 		return false, fmt.Errorf("bad CID key: %w", err)
 	}
 
+	verifhook.Gate(sc, "Has", "pre")
 	sc.mu.RLock()
 	defer sc.mu.RUnlock()
+	verifhook.Gate(sc, "Has", "locked")
+	defer verifhook.Gate(sc, "Has", "unlocking")
 
 	if sc.closed {
 		return false, ErrClosed
@@ -439,8 +446,11 @@ func (sc *StorageCar) GetStream(ctx context.Context, keyStr string) (io.ReadClos
 		}
 	}
 
+	verifhook.Gate(sc, "GetStream", "pre")
 	sc.mu.RLock()
 	defer sc.mu.RUnlock()
+	verifhook.Gate(sc, "GetStream", "locked")
+	defer verifhook.Gate(sc, "GetStream", "unlocking")
 
 	if sc.closed {
 		return nil, ErrClosed
@@ -475,8 +485,11 @@ func (sc *StorageCar) Finalize() error {
 	}
 
 	if sc.opts.WriteAsCarV1 {
+		verifhook.Gate(sc, "Finalize", "pre")
 		sc.mu.Lock()
 		defer sc.mu.Unlock()
+		verifhook.Gate(sc, "Finalize", "locked")
+		defer verifhook.Gate(sc, "Finalize", "unlocking")
 		if sc.closed {
 			return fmt.Errorf("called Finalize on a closed storage CAR")
 		}
@@ -489,8 +502,11 @@ func (sc *StorageCar) Finalize() error {
 		return fmt.Errorf("cannot finalize a CARv2 without an io.WriterAt")
 	}
 
+	verifhook.Gate(sc, "Finalize", "pre")
 	sc.mu.Lock()
 	defer sc.mu.Unlock()
+	verifhook.Gate(sc, "Finalize", "locked")
+	defer verifhook.Gate(sc, "Finalize", "unlocking")
 
 	if sc.closed {
 		// Allow duplicate Finalize calls, just like Close.
